@@ -1,5 +1,6 @@
 import Driver.Parse
 import Driver.Proxy
+import Driver.E2E
 import FpVerif.Spec.JA3
 import FpVerif.Spec.Capture
 import FpVerif.Spec.H2Fp
@@ -190,6 +191,7 @@ def handle (cmd : String) (args : List String) : String :=
     match parseHello toks with
     | some h => s!"ok a={toHex (Fp.Spec.JA4.partA h)} b=sha12of:{toHex (Fp.Spec.JA4.partBInput h)} c=sha12of:{toHex (Fp.Spec.JA4.partCInput h)}"
     | none => "bad-op"
+  | "e2e", toks => (e2eExpected toks).getD "bad-op"
   | "rw", toks => (rwModel toks).getD "bad-op"
   | "rwspec05", toks => (rwSpec05 toks).getD "bad-op"
   | "rwspec09", toks => (rwSpec09 toks).getD "bad-op"
